@@ -23,7 +23,13 @@ import (
 	"verif/h/pt"
 )
 
-const verifDir = "/verif"
+// verifDir is /verif; a background run from a snapshot (vp run) names its own copy in VERIF_DIR.
+var verifDir = func() string {
+	if d := os.Getenv("VERIF_DIR"); d != "" {
+		return d
+	}
+	return "/verif"
+}()
 
 // repoDir is the tree the checks rebuild from: /repo, or - for trying a seeded change next to a running
 // check without touching /repo - a scratch worktree named by VERIF_ALT_REPO (then evidence and replay
